@@ -380,12 +380,5 @@ KERNELS = [
 ]
 
 
-def _shared():
-    # the refresh against the REAL DB.lookup_utxos (shared with C09): what the view records for a
-    # confirmed input must be the index's script hash and value, also when live outputs collide
-    from props import c09
-    k = [k for k in c09.KERNELS if k.name == 'DBLOOKUP'][0]
-    return k
-
-
-KERNELS.append(_shared())
+from props import dblookup as _dbl   # noqa: E402  (refresh against the REAL DB.lookup_utxos, shared with C09)
+KERNELS.append(_dbl.KERNEL)
